@@ -170,7 +170,11 @@ def gen_calc(rng, V, tbl="public", which=None, pool=None):
     which = which or rng.choice(
         ["nscat", "nsld", "xsld", "volume", "activation", "d2o_match", "fasta_const",
          "emission_table", "xsld_table", "nsld_table", "nsf_tables", "list", "mff", "f0", "mass",
-         "refraction", "composite", "d2o_sld", "fasta_seq", "formula_methods", "show_table", "iadd"])
+         "refraction", "composite", "d2o_sld", "fasta_seq", "formula_methods", "show_table", "iadd", "new_isotope"])
+    if which == "new_isotope":
+        Z = rng.choice(HOT_Z + [1, 1, 26]) if rng.random() < 0.6 else rng.choice([z for z in V.Z if V.els[z]["isotopes"]])
+        isos = V.els[Z]["isotopes"]
+        return ["calc", tbl, which, Z, (isos[-1] if isos else 0) + rng.choice([3, 5, 40])]
     if which in ("nscat", "nsld"):
         ev = ["calc", tbl, which, V.formula(rng, pool=pool), rng.choice([1.0, 2.5, 7.9]),
               rng.choice([0.5, 1.798, 4.75, 6.0])]
@@ -285,6 +289,15 @@ def c09_burst_strata():
         [["calc", "public", "iadd", "C2H6O", "lipid"], ["calc", "public", "iadd", "C2H6O", "lipid"],
          ["calc", "public", "iadd", "C2H6O", "fasta"], ["calc", "public", "iadd", "C2H6O", "fasta"],
          ["calc", "public", "iadd", "C2H6O", "hill"], ["calc", "public", "iadd", "C2H6O", "copy"]],
+        # an isotope added after the groups were first touched through different routes
+        [["read", "public", [1, 0, 0], "neutron", "attr"], ["calc", "public", "new_isotope", 1, 8]],
+        [["read", "public", [26, 0, 0], "neutron", "hasattr"], ["calc", "public", "new_isotope", 26, 99]],
+        [["calc", "public", "nsld", "H2O", 1.0, 4.75], ["calc", "public", "new_isotope", 1, 8]],
+        [["import", "periodictable.fasta"], ["calc", "public", "new_isotope", 1, 8]],
+        [["init", "public", "neutron", False], ["calc", "public", "new_isotope", 8, 40],
+         ["init", "public", "activation", False], ["calc", "public", "new_isotope", 27, 99]],
+        [["read", "public", [1, 2, 0], "neutron", "attr"], ["calc", "public", "new_isotope", 1, 8],
+         ["read", "public", [26, 0, 0], "neutron_activation", "attr"], ["calc", "public", "new_isotope", 26, 99]],
         [["calc", "public", "volume", "Fe2O3", {"packing": "bcc"}], ["calc", "public", "volume", "Fe2O3"],
          ["calc", "public", "formula_methods", "Fe2O3", 3.7], ["calc", "public", "formula_methods", "Fe2O3", 1.0]],
     ]
